@@ -164,7 +164,7 @@ namespace {
           sink->push_back(out); // the statements of the outermost block are kept apart so that replays can be shrunk
           out.clear();
         }
-        const int k = int(rng.below(d <= 0 ? 12 : 28));
+        const int k = int(rng.below(d <= 0 ? 12 : 33));
         switch (k) {
         case 0:
         case 1:
@@ -286,6 +286,73 @@ namespace {
           // a call that only resolves through an arithmetic conversion of another argument, and whose callee throws
           const std::string arg = objs.empty() ? "Tracked(" + num() + ")" : rng.pick(objs);
           out += "try { scale_throw(" + arg + ", " + std::to_string(rng.range(1, 9)) + "); } catch (e) { t(-4) } ";
+          break;
+        }
+        case 28: {
+          // loops left or cut short by break / continue while the iteration owns instances
+          const std::string q = nm("q");
+          switch (rng.below(3)) {
+          case 0:
+            out += "for (var i = 0; i < 3; ++i) { var " + q + " = " + source(objs) + "; if (i == 0) { continue }; by_cref(" + q + "); if (i == 1) { break }; by_ref(" + q + "); } ";
+            break;
+          case 1: {
+            const std::string e = nm("e");
+            out += "for (" + e + " : [" + source(objs) + ", " + source(objs) + ", " + source(objs) + "]) { var " + q + " = clone(" + e + "); if (" + q + ".value() % 2 == 0) { continue }; by_ref(" + e + "); break; } ";
+            break;
+          }
+          default: {
+            const std::string w = nm("w");
+            out += "var " + w + " = 0; while (" + w + " < 3) { ++" + w + "; var " + q + " = " + source(objs) + "; if (" + w + " == 1) { continue }; { var inner = clone(" + q + "); if (" + w + " == 2) { break }; by_cref(inner); } } ";
+            break;
+          }
+          }
+          break;
+        }
+        case 29: {
+          // base -> derived conversion: a value held as the base that really is the derived type is passed to a
+          // function that wants the derived type (the converted value is saved for the duration of the call)
+          const std::string b = nm("db");
+          switch (rng.below(3)) {
+          case 0: out += "takes_derived(make_derived_as_base(" + num() + ")); "; break;
+          case 1: out += "var " + b + " = make_derived_as_base(" + num() + "); t(takes_derived(" + b + ")); keep(" + b + "); by_cref(" + b + "); "; break;
+          default: out += "try { takes_derived(make_shared_t(" + num() + ")); } catch (e) { t(-5) } "; break; // not a derived object: refused
+          }
+          break;
+        }
+        case 30: {
+          // C++ functions returning a (const) pointer to their argument; the result is used later in the statement
+          std::string arg;
+          switch (rng.below(objs.empty() ? 2 : 3)) {
+          case 0: arg = "Tracked(" + num() + ")"; break;
+          case 1: arg = "make_value(" + num() + ")"; break;
+          default: arg = rng.pick(objs); break;
+          }
+          switch (rng.below(3)) {
+          case 0: out += "t(peek(" + arg + ").value()); "; break;
+          case 1: out += "by_cptr(peek(" + arg + ")); "; break;
+          default: out += "by_ptr(peek_mut(" + (objs.empty() ? std::string("held_ref()") : rng.pick(objs)) + ")); "; break;
+          }
+          break;
+        }
+        case 31: {
+          // the attribute map of a script object, taken while the object is alive and used after it is gone
+          const std::string m = nm("am");
+          switch (rng.below(3)) {
+          case 0: out += "var " + m + " = fun() { var o = Dynamic_Object(); o.item = " + source(objs) + "; o.other = Tracked(" + num() + "); return o.get_attrs() }(); by_cref(" + m + "[\"item\"]); t(" + m + ".size()); "; break;
+          case 1: out += "var " + m + " = Dynamic_Object(); " + m + ".item = " + source(objs) + "; var " + m + "a = " + m + ".get_attrs(); " + m + " := Dynamic_Object(); by_cref(" + m + "a[\"item\"]); "; break;
+          default: out += "keep_value(fun() { var o = Dynamic_Object(); o.item = Tracked(" + num() + "); return o.get_attrs() }()); "; break;
+          }
+          break;
+        }
+        case 32: {
+          // C++ calls a script function through std::function with an argument passed BY VALUE; the script
+          // keeps the parameter beyond the call (by reference in a container, in a capture, in a global)
+          const std::string kv = nm("kv");
+          switch (rng.below(3)) {
+          case 0: out += "var " + kv + " = []; call_with_value(fun[" + kv + "](p) { " + kv + ".push_back_ref(p) }, " + num() + "); by_cref(" + kv + "[0]); t(" + kv + "[0].value()); "; break;
+          case 1: out += "var " + kv + " = Dynamic_Object(); call_with_value(fun[" + kv + "](p) { " + kv + ".f = fun[p]() { return by_cref(p) } }, " + num() + "); " + kv + ".f(); "; break;
+          default: out += "call_with_value(fun(p) { keep_value(p) }, " + num() + "); "; break;
+          }
           break;
         }
         case 25: {
@@ -467,6 +534,19 @@ namespace {
         e.add(fun([&kept_values](const Boxed_Value &bv) { kept_values.push_back(bv); }), "keep_value");
         e.eval("def as_base(Tracked b) { return b }");
         e.add(fun([](std::shared_ptr<Tracked> &p, int v) { p = std::make_shared<Tracked>(v); }), "reseat");
+        e.add(fun([](const std::function<void(Tracked)> &f, int v) { f(Tracked(v)); }), "call_with_value");
+        e.add(fun([](int v) { return std::shared_ptr<Tracked>(std::make_shared<TrackedDerived>(v)); }), "make_derived_as_base");
+        e.add(fun([](const TrackedDerived &d) { return d.value(); }), "takes_derived");
+        e.add(fun([](const Tracked &t) -> const Tracked * {
+                (void)t.value();
+                return &t;
+              }),
+              "peek");
+        e.add(fun([](Tracked &t) -> Tracked * {
+                (void)t.value();
+                return &t;
+              }),
+              "peek_mut");
         e.add(fun([](Tracked &t, double f) -> double {
                 (void)t.value();
                 throw std::runtime_error("scale_throw " + std::to_string(f));
